@@ -72,14 +72,14 @@ Section tr.
   Proof. intros [HH HW] Ea En Ep HX. split; try done. rewrite <- Ea. eapply HR_P; [|exact HH]. done. Qed.
 
   (** the tracker after the completions in sorted order, from the tracker after them in emission order *)
-  Lemma TR_transfer i M s t1 t2 : TR X cfg s t1 → tle i M t1 t2 → (M → X i "C03:not-fifo"%string) → TR X cfg s t2.
+  Lemma TR_transfer s t1 t2 : TR X cfg s t1 → tle t1 t2 → TR X cfg s t2.
   Proof.
-    intros [H1 H2 H3 H4 H5] (En & Ep & Ew & Hh & Hf) HM. split.
+    intros [H1 H2 H3 H4 H5] (En & Ep & Em & Ew & Hh & Hf). split.
     - by rewrite En.
     - by rewrite Ep.
     - by eapply HR_perm.
     - by rewrite Ew.
-    - intros j tag Hx. destruct (Hf _ Hx) as [?|[Hm [= -> ->]]]; [by apply H5|by apply HM].
+    - intros j tag Hx. by apply H5, Hf.
   Qed.
 
   Lemma ef_done_list i cause cs t a : (∀ c, c ∈ cs → c_at c = a) → ef a (t_holds t) = t_holds t →
